@@ -145,7 +145,7 @@ ATTACK = {"method": "DELETE", "proto": "https", "host": "trusted.example.com", "
 
 def base_case(mode, trusted, remote, headers, method="GET", path="/x/public", query="a=1", host="svc.local", tls=False):
     return {"fam": "fwd", "op": "req", "mode": mode, "trusted": trusted, "remote": remote, "tls": tls, "method": method,
-            "host": host, "esc_path": path, "raw_query": query, "target": path + ("?" + query if query else ""),
+            "host": host, "raw_path": "", "esc_path": path, "raw_query": query, "target": path + ("?" + query if query else ""),
             "headers": headers}
 
 
@@ -253,14 +253,23 @@ def small_scope_cases():
 
 
 def fill_uri_tables(exe, cases, setup):
+    """net/url is a parameter of the model: ask the real one what it makes of every X-Forwarded-Uri value (url.Parse) and
+    of every request target (url.ParseRequestURI, as the request reader does) and put the answers into the cases"""
     parts = [p for c in cases for p in req_parts(c)]
     vals = sorted({v for p in parts for v in gen_fwd.uri_values_of(p)})
-    out = vlib.run_cases([exe], [setup, {"fam": "fwd", "op": "uri", "vals": vals}])
-    if len(out) < 2 or not isinstance(out[1], list):
+    targets = sorted({p["target"] for p in parts})
+    out = vlib.run_cases([exe], [setup, {"fam": "fwd", "op": "uri", "vals": vals},
+                                 {"fam": "fwd", "op": "uri", "vals": targets, "request_target": True}])
+    if len(out) < 3 or not isinstance(out[1], list) or not isinstance(out[2], list):
         raise RuntimeError("harness cannot evaluate net/url: " + json.dumps(out)[:500])
     tab = {row[0]: row for row in out[1]}
+    ttab = {row[0]: row for row in out[2]}
     for p in parts:
         p["uri_tab"] = [tab[v] for v in dict.fromkeys(gen_fwd.uri_values_of(p))]
+        row = ttab[p["target"]]
+        if not row[1]:
+            raise RuntimeError("generated request target is not accepted by net/url: " + p["target"])
+        p["raw_path"], p["esc_path"], p["raw_query"] = row[2], row[3], row[4]
     return out[0]
 
 
@@ -372,7 +381,7 @@ def shrink(exe, setup, case, keep_rule_difference=False):
                 cand = dict(cur, **{field: simple})
                 if cur[field] != simple and fails(cand):
                     cur = cand
-            cand = dict(cur, esc_path="/x/public", raw_query="", target="/x/public")
+            cand = dict(cur, esc_path="/x/public", raw_path="", raw_query="", target="/x/public")
             if fails(cand):
                 cur = cand
     if isinstance(cur.get("trusted"), list) and len(cur["trusted"]) > 1:
@@ -492,6 +501,7 @@ def run(R):
             "matched_rule_would_differ_if_headers_were_honoured_or_ignored": 0, "status_404": 0,
             "unparsable_peer_address": 0, "trust_true": 0, "trust_false": 0,
             "trust_unpatched_code_would_differ": 0, "invalid_entries_seen": 0, "decision": 0, "proxy": 0,
+            "path_spelling_as_received_differs_from_go_encoding": 0, "query_taken_from_x_forwarded_uri_as_received": 0,
             "sequence_cases": 0, "requests_in_sequences": 0, "parallel_cases": 0, "parallel_requests_served": 0,
             "parallel_workers_listed": 0, "parallel_workers_unlisted": 0}
     overridden = {}
@@ -511,6 +521,10 @@ def run(R):
                 dist["matched_rule_would_differ_if_headers_were_honoured_or_ignored"] += 1
             if st.get("rule") == "none":
                 dist["status_404"] += 1
+            if st.get("received_path_differs_from_go_encoding"):
+                dist["path_spelling_as_received_differs_from_go_encoding"] += 1
+            if st.get("query_from_header"):
+                dist["query_taken_from_x_forwarded_uri_as_received"] += 1
             if not st.get("peer_parsable", True):
                 dist["unparsable_peer_address"] += 1
             for o in st.get("overridden", []):
@@ -568,8 +582,9 @@ def run(R):
     if small:
         R.coverage["small_scope"] = "all 128 subsets of the forwarded family x 3 spellings x {unlisted, listed} x {decision, proxy}"
     R.assumptions += [
-        "url.Parse / URL.EscapedPath / Query().Encode() on X-Forwarded-Uri is a parameter of the model (theorems hold for "
-        "every such function); the correspondence run instantiates it with the graph of the real net/url",
+        "net/url (url.Parse on X-Forwarded-Uri, url.ParseRequestURI on the request target: RawPath, EscapedPath(), RawQuery) is "
+        "a parameter of the model (theorems hold for every such function); the correspondence run instantiates it with the "
+        "graph of the real net/url; heimdall's own escapedPath (path as received) and the use of RawQuery are modelled",
         "net/http's request reader (header canonicalisation, value trimming), httputil.ReverseProxy's removal of "
         "Forwarded/X-Forwarded-For/-Host/-Proto from the outgoing request and Go's net.ParseIP/ParseCIDR/SplitHostPort are "
         "re-modelled in Lean and validated by the correspondence run only",
